@@ -367,6 +367,74 @@ def _core_check(desc):
     return case.fails, True, case.outcome, case.input
 
 
+# ---- overlapping note extents, every iteration order -----------------------------------------
+# A PT_NOTE segment usually spans several note sections (.note.gnu.property, .note.gnu.build-id, .note.ABI-tag): views that START at the
+# same offset but have different sizes, and views nested in one another.  Every view must yield exactly the notes inside its own extent,
+# whatever other view of the same file object was walked (completely or partially) before.
+
+_EXT_VIEWS = ['secA', 'secB', 'segAB', 'segA', 'segB']
+
+
+def _ext_gen():
+    import itertools
+    for cls in (64, 32):
+        for le in (True, False):
+            for perm in itertools.permutations(range(5)):
+                yield {'class': cls, 'le': le, 'order': list(perm), 'partial': False}
+            for a in range(5):
+                for b in range(5):
+                    if a != b:
+                        yield {'class': cls, 'le': le, 'order': [a, b], 'partial': True}     # one note of view a, then all of view b
+
+
+def _ext_check(desc):
+    from elftools.elf.elffile import ELFFile
+    img = eg.Img(desc['class'], desc['le'], machine=62, etype=3, seed=SEED)
+    f = img.f
+    A = [('GNU', 5, enc_props(f, [(0xc0000002, struct.pack(f.o + 'I', 3))])), ('GNU', 3, bytes(range(20)))]
+    B = [('GNU', 1, struct.pack(f.o + 'IIII', 0, 3, 2, 0)), ('abc', 0x7001, b'xyz')]
+    img.null()
+    sa = img.add(eg.Sec('.note.a', 7, data=b''.join(enc_note(f, *n) for n in A), flags=2, addr=0x400200, align=4, file_align=8))
+    sb = img.add(eg.Sec('.note.b', 7, data=b''.join(enc_note(f, *n) for n in B), flags=2, addr=0x400200 + len(sa.data), align=4, file_align=4))
+    img.add_shstrtab()
+    img.seg(eg.Seg(4, flags=4, of=[sa, sb], align=4))
+    img.seg(eg.Seg(4, flags=4, of=sa, align=4))
+    img.seg(eg.Seg(4, flags=4, of=sb, align=4))
+    data = img.encode()
+    if sb.offset != sa.offset + len(sa.data):
+        raise core.HarnessError('note sections are not adjacent')
+    elf = ELFFile(io.BytesIO(data))
+    want = {'secA': A, 'secB': B, 'segAB': A + B, 'segA': A, 'segB': B}
+    getter = {'secA': lambda: elf.get_section(sa.index), 'secB': lambda: elf.get_section(sb.index), 'segAB': lambda: elf.get_segment(0),
+              'segA': lambda: elf.get_segment(1), 'segB': lambda: elf.get_segment(2)}
+
+    def obs(n):
+        return (n['n_name'], n['n_type'] if isinstance(n['n_type'], int) else str(n['n_type']), bytes(n['n_descdata']), n['n_offset'])
+    fails = []
+    seen = []
+    order = [_EXT_VIEWS[i] for i in desc['order']]
+    for j, v in enumerate(order):
+        it = guarded(lambda: getter[v]().iter_notes())
+        if desc['partial'] and j == 0:
+            got = guarded(lambda: [obs(next(it))])
+            exp = want[v][:1]
+        else:
+            got = guarded(lambda: [obs(n) for n in it])
+            exp = want[v]
+        if isinstance(got, Raised):
+            fails.append(('%s.iter_notes() after %s' % (v, seen), '%d notes' % len(exp), got))
+        else:
+            g = [(n[0], n[2]) for n in got]
+            e = [(n[0], n[2]) for n in exp]
+            if g != e:
+                fails.append(('%s.iter_notes() after %s' % (v, seen or 'nothing'), e, g))
+            offs = [n[3] for n in got]
+            if offs != sorted(set(offs)) or (offs and offs[0] != (sb.offset if v in ('secB', 'segB') else sa.offset)):
+                fails.append(('%s note offsets' % v, 'ascending from the start of the extent', offs))
+        seen.append(v)
+    return fails, True, repr(order), data
+
+
 def spaces(tier, seed):
     global SEED
     SEED = seed
@@ -377,5 +445,8 @@ def spaces(tier, seed):
                     'prpsinfo, NT_FILE 0/1/3} x type override x final note {as is, header-only, name-only, unpadded length} x position; both views compared; non-trivial = at least one note'),
         ListSpace('core-notes', _core_gen, _core_check, nparts=16, rule='core files: complete product machine {x86-64, i386, ARM, AArch64, MIPS} x class x byte order x {NT_PRPSINFO, NT_FILE with 0/1/3 mappings}, '
                   'owner CORE (16-bit uid/gid on 32-bit ARM/i386): descriptor decoded field by field'),
+        ListSpace('overlapping-extents', _ext_gen, _ext_check, nparts=16, rule='two adjacent note sections A, B and three PT_NOTE segments (A+B, A, B): five views, two pairs of which start at the same file '
+                  'offset with different sizes; every permutation of walking the five views on ONE file object (120) and every ordered pair with the first view abandoned after one note (20), x class x byte '
+                  'order; each view must yield exactly the notes of its own extent'),
         ListSpace('stabs', _stab_gen, _stab_check, nparts=8, rule='stab tables of 0/1/3/40 records with field boundary values, two file positions, sequential and interleaved iteration'),
     ]
